@@ -43,6 +43,7 @@ type txSpec struct {
 	Signers  []string // account names; "N" is the Notary contract
 	Sys, Net int64
 	Big      bool     // long script: bigger size, lower fee per byte
+	Pad      int      // extra script bytes (to give an ordinary tx the size of one with an attribute)
 	High     bool     // HighPriority attribute
 	Confl    []string // names of (earlier) txs named by Conflicts attributes
 	Oracle   int      // oracle response id, 0 = none
@@ -108,6 +109,9 @@ func (sc *scenario) build() {
 				script[j] = byte(opcode.NOP)
 			}
 		}
+		for j := 0; j < s.Pad; j++ {
+			script = append(script, byte(opcode.NOP))
+		}
 		t := transaction.New(script, s.Sys)
 		t.Nonce = uint32(1000 + i)
 		t.NetworkFee = s.Net
@@ -162,6 +166,24 @@ func scenarios() []*scenario {
 				{Kind: opBlock, Name: "Block(S1:=30000)", Bal: map[string]int64{"S1": 30000}},
 				{Kind: opBlock, Name: "Block(fpb:=60)", Fpb: 60},
 				{Kind: opBlock, Name: "Block(drop a20)", Drop: []int{1}},
+			},
+		},
+		{
+			// the priority attribute is the FIRST ordering key: high-priority transactions with exactly
+			// the fees (network fee AND fee per byte: sizes are made equal) of ordinary ones
+			Name: "priority-ties",
+			Txs: []txSpec{
+				{Name: "p10", Signers: []string{"S1"}, Net: 10000, Pad: 1},
+				{Name: "h10", Signers: []string{"S2"}, Net: 10000, High: true},
+				{Name: "p20", Signers: []string{"S1"}, Net: 20000, Pad: 1},
+				{Name: "h20", Signers: []string{"S2"}, Net: 20000, High: true},
+				{Name: "q10", Signers: []string{"S3"}, Net: 10000, Pad: 1}, // same priority as p10
+				{Name: "q5", Signers: []string{"S3"}, Net: 5000, Pad: 1},
+			},
+			Bal:  map[string]int64{"S1": 30000, "S2": 30000, "S3": 15000},
+			Caps: []int{1, 2, 3},
+			Blocks: []op{keepAll,
+				{Kind: opBlock, Name: "Block(drop p10)", Drop: []int{0}},
 			},
 		},
 		{
